@@ -231,13 +231,8 @@ macro_rules! define_ops {
             };
             match r {
                 Ok(x) => o(x),
-                Err(e) => {
-                    if e.to_string() == "overflow" {
-                        Out::E(0)
-                    } else {
-                        Out::E(1)
-                    }
-                }
+                // Wrapping never reports overflow: any error here is "not a literal"
+                Err(_) => Out::E(1),
             }
         }
     };
